@@ -486,3 +486,13 @@ def c17_g(ctx):
     fns.append(ctx.fn('elfi.methods.model_selection:compare_models'))
     scale_free_sweep(ctx, fns, 'the result depends on the units the summaries / discrepancies are '
                                'expressed in')
+
+
+@obligation('C17-h', 'T2', 'no result buffer takes the dtype of a caller\'s array and then receives '
+            'computed values (shared sweep of C08-l, restricted to the modules this property is '
+            'anchored in; `*_like(x)` and `dtype=x.dtype` allocations)', floor=1,
+            necessary='adjusted values are stored as computed (numpy truncates floats silently when they are assigned into an '
+                      'integer array)')
+def c17_dtype(ctx):
+    from .base import inherited_dtype_obligation
+    inherited_dtype_obligation(ctx, ['elfi.methods.post_processing', 'elfi.methods.model_selection'])
